@@ -131,15 +131,42 @@ Lemma Sph_fitT_roundtrip az0 s0 ze0 s1 ax s2 q0 q1 q2 : s2*s2 = 1 ->
   let o := mkSc az0 s0 ze0 s1 ax s2 in Sph_fitT ROps o (q0,q1,q2) (snd (Sph_X ROps o (q0,q1,q2))) = q2.
 Proof. intros H2 o; subst o. sc (s0*q0+az0); sc (s1*q1+ze0). destruct ax; funf; nsatz_or_fail. Qed.
 
-(** ** Ball / Free from a quaternion: Spurrier's extraction reproduces the rotation of every unit quaternion *)
-Lemma quat_of_R_unnormalised_partial e0 e1 e2 e3' : e0*e0+e1*e1+e2*e2+e3'*e3' = 1 ->
-  let R := Rquat ROps (e0,e1,e2,e3') in
-  let tr := m33_e R 0 0 + m33_e R 1 1 + m33_e R 2 2 in
-  (1 + tr, m33_e R 2 1 - m33_e R 1 2, m33_e R 0 2 - m33_e R 2 0, m33_e R 1 0 - m33_e R 0 1) = v4_scale ROps (4*e0) (e0,e1,e2,e3') /\
-  (m33_e R 2 1 - m33_e R 1 2, 1 - (tr - 2 * m33_e R 0 0), m33_e R 0 1 + m33_e R 1 0, m33_e R 0 2 + m33_e R 2 0) = v4_scale ROps (4*e1) (e0,e1,e2,e3') /\
-  (m33_e R 0 2 - m33_e R 2 0, m33_e R 0 1 + m33_e R 1 0, 1 - (tr - 2 * m33_e R 1 1), m33_e R 1 2 + m33_e R 2 1) = v4_scale ROps (4*e2) (e0,e1,e2,e3') /\
-  (m33_e R 1 0 - m33_e R 0 1, m33_e R 0 2 + m33_e R 2 0, m33_e R 1 2 + m33_e R 2 1, 1 - (tr - 2 * m33_e R 2 2)) = v4_scale ROps (4*e3') (e0,e1,e2,e3').
-Proof. intros H R tr; subst tr R. unf. repeat split; teq; nsatz_or_fail. Qed.
+(** ** Ball / Free from a quaternion: Spurrier's extraction (Rotation::convertRotationToQuaternion, all four
+    branches, with the normalisation and the canonical sign) reproduces the rotation of every unit quaternion *)
+Lemma quat_branch_Rquat (k : nat) e0 e1 e2 e3' : e0*e0+e1*e1+e2*e2+e3'*e3' = 1 ->
+  quat_branch ROps k (Rquat ROps (e0,e1,e2,e3')) =
+  v4_scale ROps (4 * match k with O => e0 | S O => e1 | S (S O) => e2 | _ => e3' end) (e0,e1,e2,e3').
+Proof. intros H. destruct k as [|[|[|k]]]; cbv [quat_branch]; unf; teq; nsatz_or_fail. Qed.
+Lemma quat_pick_nonzero e0 e1 e2 e3' : e0*e0+e1*e1+e2*e2+e3'*e3' = 1 ->
+  match quat_pick ROps (Rquat ROps (e0,e1,e2,e3')) with O => e0 | S O => e1 | S (S O) => e2 | _ => e3' end <> 0.
+Proof. intros H. cbv [quat_pick]. unf. cbv [Rleb].
+  generalize (Rle_0_sqr e0) (Rle_0_sqr e1) (Rle_0_sqr e2) (Rle_0_sqr e3'); unfold Rsqr; intros S0 S1 S2 S3.
+  repeat match goal with |- context [Rle_dec ?a ?b] => destruct (Rle_dec a b) end; cbn [andb];
+  (intro Hz; match type of Hz with ?x = 0 => subst x end; nra). Qed.
+Lemma quat_normalise_same_rotation q : v4_normSqr ROps q <> 0 -> quatR ROps (quat_normalise ROps q) = quatR ROps q.
+Proof. intros Hn. unfold quat_normalise. apply quatR_scale; auto.
+  assert (Hs : 0 < sqrt (v4_normSqr ROps q)).
+  { apply sqrt_lt_R0. destruct q as [[[a b] c] d]. revert Hn. vunf. intros Hn. nra. }
+  change (nsqrt ROps (v4_normSqr ROps q)) with (sqrt (v4_normSqr ROps q)). set (s := sqrt (v4_normSqr ROps q)) in *. clearbody s.
+  change (ndiv ROps (n1 ROps)) with (Rdiv 1). change (nopp ROps s) with (- s).
+  destruct (nltb ROps (v4_0 q) (n0 ROps)); unfold Rdiv; rewrite Rmult_1_l; apply Rinv_neq_0_compat; lra. Qed.
+Theorem Ball_fit_roundtrip_q e0 e1 e2 e3' : e0*e0+e1*e1+e2*e2+e3'*e3' = 1 ->
+  quatR ROps (Ball_fitRq ROps (Rquat ROps (e0,e1,e2,e3'))) = Rquat ROps (e0,e1,e2,e3').
+Proof. intros H. unfold Ball_fitRq, quat_of_R.
+  pose proof (quat_pick_nonzero e0 e1 e2 e3' H) as Hk.
+  rewrite (quat_branch_Rquat _ e0 e1 e2 e3' H). set (k := match quat_pick ROps (Rquat ROps (e0, e1, e2, e3')) with O => e0 | S O => e1 | S (S O) => e2 | _ => e3' end) in *.
+  assert (Hn : v4_normSqr ROps (e0,e1,e2,e3') = 1) by (vunf; lra).
+  assert (H4 : 4 * k <> 0) by lra.
+  rewrite quat_normalise_same_rotation.
+  - rewrite quatR_scale by (auto; rewrite Hn; lra). apply quatR_unit; auto.
+  - revert Hn. vunf. intros Hn. replace (4 * k * e0 * (4 * k * e0) + 4 * k * e1 * (4 * k * e1) + 4 * k * e2 * (4 * k * e2) + 4 * k * e3' * (4 * k * e3'))
+      with ((4*k)*(4*k)*(e0 * e0 + e1 * e1 + e2 * e2 + e3' * e3')) by ring. rewrite Hn. nra. Qed.
+(** Free adds the translation, which is fitted exactly *)
+Theorem Free_fit_roundtrip_q e0 e1 e2 e3' p : e0*e0+e1*e1+e2*e2+e3'*e3' = 1 ->
+  let X := Free_Xq ROps (e0,e1,e2,e3') p in
+  Free_Xq ROps (Ball_fitRq ROps (Rquat ROps (e0,e1,e2,e3'))) (snd X) = X.
+Proof. intros H X; subst X. unfold Free_Xq. cbn [snd]. rewrite (Ball_fit_roundtrip_q e0 e1 e2 e3' H).
+  rewrite quatR_unit by (vunf; lra). reflexivity. Qed.
 
 (** ** round trips the implementation does NOT satisfy (replayed on the code by checks/C05.py, known findings) *)
 (** BendStretch: a representable pose with negative stretch is not reproduced (the translation fit returns
